@@ -18,7 +18,7 @@ from engine.cfg import call_name
 from engine.errors import AnalysisError
 from engine.raises import _is_subclass, enclosing_catchers, raise_sites
 from engine.repo import walk_no_nested
-from engine.util import calls_in, dotted, local_assignments, unparse
+from engine.util import calls_in, dotted, local_assignments, unparse, xsrc
 
 ID = 'C16'
 LOC = 'sdc11073.location.SdcLocation'
@@ -103,7 +103,7 @@ def run(ctx):  # noqa: C901, PLR0912, PLR0915
                                         for _e, _n, w in raise_sites(repo.resolve_method(LOC, m))]})
     # scopes may be absent
     sm = repo.method(LOC, '_service_matches')
-    ok = 'service.scopes is None' in unparse(sm.node)
+    ok = 'service.scopes is None' in xsrc(sm)
     ctx.ob('C16.R1', 'service without scopes', ok, '_service_matches tolerates services without scopes', fi=sm)
 
     # ------------------------------------------------------------------ R2
@@ -156,7 +156,7 @@ def run(ctx):  # noqa: C901, PLR0912, PLR0915
            witness=sorted(set(smap.values()) - members))
     # from_scope_string reads query keys by the element names
     fs = repo.method(LOC, 'from_scope_string')
-    src = unparse(fs.node)
+    src = xsrc(fs)
     ctx.ob('C16.R2', 'reader keys', 'query_dict.get(attr_name)' in src and 'cls(**arguments_dict)' in src,
            'from_scope_string fills the constructor arguments from the query by element name', fi=fs)
 
